@@ -987,6 +987,79 @@ def gen_crcio(repo):
     out.append('end Flac.Gen')
     return '\n'.join(out) + '\n'
 
+def gen_byteorder(repo):
+    """byteorder.rs: the 24-bit conversions and the direction of bytes_to_le"""
+    n = ' '.join(strip_comments(open(os.path.join(repo, 'src/byteorder.rs')).read()).split())
+    out = ['/- GENERATED by tools/translate.py from src/byteorder.rs — do not edit -/', 'namespace Flac.Gen', '']
+    def impl(name):
+        m = re.search(r'impl Endianness for ' + name + r' \{(.*?)\} (?:/// Big-endian|#\[allow\(unused\)\]|#\[derive)', n + ' #[derive')
+        if not m:
+            raise ExtractError(f'impl Endianness for {name}: not found')
+        return m.group(1)
+    le, be = impl('LittleEndian'), impl('BigEndian')
+    def num(t):
+        t = t.strip()
+        if re.fullmatch(r'0x[0-9A-Fa-f]+', t):
+            return int(t, 16)
+        if re.fullmatch(r'\d+', t):
+            return int(t)
+        m = re.fullmatch(r'\(?-1 << (\d+)\)?', t)
+        if m:
+            return -(1 << int(m.group(1)))
+        raise ExtractError(f'byteorder.rs: constant `{t}` not understood')
+    to_u, of_u = [], []
+    for nm, body, emit, order in (('LittleEndian', le, ['(unsigned & 0xFF) as u8', '((unsigned & 0xFF00) >> 8) as u8', '(unsigned >> 16) as u8'], 'bytes[2] as u32) << 16) | ((bytes[1] as u32) << 8) | bytes[0] as u32'),
+                                   ('BigEndian', be, ['(unsigned >> 16) as u8', '((unsigned & 0xFF00) >> 8) as u8', '(unsigned & 0xFF) as u8'], 'bytes[0] as u32) << 16) | ((bytes[1] as u32) << 8) | bytes[2] as u32')):
+        m = re.search(r'fn i24_to_bytes\(sample: i32\) -> \[u8; 3\] \{ let unsigned: u32 = if sample >= 0 \{ sample as u32 \} else \{ (\S+) \| \(\(sample - \((.+?)\)\) as u32\) \}; \[ (.+?), (.+?), (.+?), \] \}', body)
+        if not m:
+            raise ExtractError(f'{nm}::i24_to_bytes: expected `if sample >= 0 {{ sample as u32 }} else {{ BIT | ((sample - (BIAS)) as u32) }}` and three bytes')
+        if [m.group(3), m.group(4), m.group(5)] != emit:
+            raise ExtractError(f'{nm}::i24_to_bytes: bytes are not emitted in {nm} order')
+        to_u.append((num(m.group(1)), num(m.group(2))))
+        m = re.search(r'fn bytes_to_i24\(bytes: \[u8; 3\]\) -> i32 \{ let unsigned = \(\((.+?); if unsigned & (\S+) == 0 \{ unsigned as i32 \} else \{ \(unsigned & (\S+)\) as i32 \+ \((.+?)\) \} \}', body)
+        if not m:
+            raise ExtractError(f'{nm}::bytes_to_i24: expected `if unsigned & BIT == 0 {{ unsigned as i32 }} else {{ (unsigned & MASK) as i32 + (BIAS) }}`')
+        if m.group(1) != order:
+            raise ExtractError(f'{nm}::bytes_to_i24: bytes are not assembled in {nm} order')
+        of_u.append((num(m.group(2)), num(m.group(3)), num(m.group(4))))
+        for w, t in (('8', 'i8'), ('16', 'i16'), ('32', 'i32')):
+            suf = 'le' if nm == 'LittleEndian' else 'be'
+            arg = 'sample'
+            if not re.search(r'fn i' + w + r'_to_bytes\(sample: ' + t + r'\) -> \[u8; \d\] \{ ' + arg + r'\.to_' + suf + r'_bytes\(\) \}', body) or \
+               not re.search(r'fn bytes_to_i' + w + r'\(bytes: \[u8; \d\]\) -> ' + t + r' \{ ' + t + r'::from_' + suf + r'_bytes\(bytes\) \}', body):
+                raise ExtractError(f'{nm}: the {w}-bit conversions are not std to_{suf}_bytes / from_{suf}_bytes')
+    if to_u[0] != to_u[1] or of_u[0] != of_u[1]:
+        raise ExtractError('byteorder.rs: the two byte orders use different 24-bit constants')
+    bit, bias = to_u[0]
+    out.append('/-- `i24_to_bytes` (both byte orders): the 32-bit unsigned value whose low three bytes are emitted -/\n'
+               f'def i24ToUnsigned (x : Int) : Nat := if x ≥ 0 then (x % 4294967296).toNat else Nat.lor {bit} (((x - ({lean_int(bias)})) % 4294967296).toNat)\n')
+    bit2, mask, bias2 = of_u[0]
+    out.append('/-- `bytes_to_i24` (both byte orders): the sample for the unsigned value assembled from the three bytes -/\n'
+               f'def i24OfUnsigned (u : Nat) : Int := if Nat.land u {bit2} == 0 then (u : Int) else ((Nat.land u {mask} : Nat) : Int) + ({lean_int(bias2)})\n')
+    rev = 'for chunk in buf.chunks_exact_mut(bytes_per_sample) { chunk.reverse(); }'
+    def to_le(body, nm):
+        m = re.search(r'fn bytes_to_le\((_?)buf: &mut \[u8\], _?bytes_per_sample: usize\) \{(.*?)\}(?= fn|\s*$)', body)
+        if not m:
+            raise ExtractError(f'{nm}::bytes_to_le: not found')
+        b = m.group(2).strip()
+        if b == rev:
+            return 'rev'
+        if b == '' or m.group(1) == '_':
+            return 'keep'
+        raise ExtractError(f'{nm}::bytes_to_le: body is neither empty nor the per-sample reversal')
+    out.append('/-- `BigEndian::bytes_to_le` reverses every `bytes_per_sample` chunk -/\n'
+               f'def bytesToLeReversesBE : Bool := {"true" if to_le(be, "BigEndian") == "rev" else "false"}\n')
+    out.append('/-- `LittleEndian::bytes_to_le` leaves the buffer alone -/\n'
+               f'def bytesToLeKeepsLE : Bool := {"true" if to_le(le, "LittleEndian") == "keep" else "false"}\n')
+    out.append('end Flac.Gen')
+    return '\n'.join(out) + '\n'
+
+def lean_int(v):
+    if v < 0:
+        k = (-v).bit_length() - 1
+        return f'-(2 ^ {k})' if (1 << k) == -v else f'-{-v}'
+    return str(v)
+
 def gen_par(repo):
     """facts about the parallel feature of encode.rs (C18)"""
     n = ' '.join(strip_comments(open(os.path.join(repo, 'src/encode.rs')).read()).split())
@@ -1243,6 +1316,7 @@ GENERATORS = [
     ('Par.lean', 'parallel feature facts', gen_par),
     ('Resid.lean', 'write_residuals facts behind the constant-block clause', gen_resid),
     ('CrcIo.lean', 'which bytes CrcWriter::write / CrcReader::read checksum', gen_crcio),
+    ('ByteOrder.lean', 'byteorder.rs 24-bit conversions and bytes_to_le', gen_byteorder),
     ('ShapesHdr.lean', 'frame header shapes', gen_shapes_hdr),
     ('ShapesRd.lean', 'reader shapes', gen_shapes_rd),
     ('ShapesEnc.lean', 'encoder-side shapes', gen_shapes_enc),
